@@ -213,6 +213,8 @@ def parse(data):
                 path = r.bs()
                 uuid = r.bs(128)
                 size = r.b64()
+                if size == 0xFFFFFFFFFFFFFFFF:
+                    size = None   # "not set yet" (written as -1): the size is then taken from the file
                 sp.append(Obj(path=path, uuid=uuid, size=size))
             c.parities[lev] = Parity(level=lev, total_blocks=total, free_blocks=free, splits=sp, kind="Q")
         elif cmd == ord("f"):
